@@ -63,6 +63,7 @@ deriving Repr, DecidableEq
 inductive ErrV
   | res (code msg : Str)     -- a `*res.Error`
   | go (msg : Str)           -- any other `error`
+  | resBad                   -- a `*res.Error` whose `Data` cannot be marshalled
 deriving Repr, DecidableEq
 
 inductive PanicV
@@ -159,6 +160,13 @@ def codeAccessDenied : Str := b!"system.accessDenied"
 def errVParts : ErrV → Str × Str
   | .res c m => (c, m)
   | .go m => (codeInternal, internalMsg m)
+  | .resBad => (codeInternal, b!"Internal error")      -- the static `responseInternalError`
+
+/-- the static fallback response carries no meta -/
+def errMeta (e : ErrV) (m : Option Str) : Option Str :=
+  match e with
+  | .resBad => none
+  | _ => m
 
 /-! ## interpreter -/
 
@@ -231,7 +239,7 @@ def act (cfg : HCfg) (r : ReqIn) (s : St) : Action → Step
   | .resource rid =>
     if !isValidRIDB rid then .panic s .lib
     else reply s (withMeta [(b!"resource", refObj rid)] (metaOf s))
-  | .error e => let (c, m) := errVParts e; reply s (respError c m (metaOf s))
+  | .error e => let (c, m) := errVParts e; reply s (respError c m (errMeta e (metaOf s)))
   | .notFound => reply s (respError codeNotFound (b!"Not found") (metaOf s))
   | .methodNotFound => reply s (respError codeMethodNotFound (b!"Method not found") (metaOf s))
   | .invalidParams msg =>
@@ -337,7 +345,7 @@ def errorReply (s : St) (code msg : Str) (m : Option Str) : St :=
 def recoverArm (s : St) (p : PanicV) : St :=
   if s.replied then s
   else match p with
-    | .err e => let (c, m) := errVParts e; errorReply s c m (metaOf s)
+    | .err e => let (c, m) := errVParts e; errorReply s c m (errMeta e (metaOf s))
     | .lib => errorReply s codeInternal (b!"<lib-panic>") (metaOf s)
     | .str msg => errorReply s codeInternal (internalMsg msg) (metaOf s)
     | .other t => errorReply s codeInternal (internalMsg t) (metaOf s)
